@@ -40,21 +40,23 @@ type WAct struct {
 }
 
 type WScn struct {
-	Kind        string
-	Seed        int64
-	Phone       string
-	PreJoin     bool // join (one heartbeat) before the recording starts
-	RecordJoin  bool // the first heartbeat is part of the recorded history
-	PreAdvance  int  // heartbeats sent and answered before the recording (advances the platform serial)
-	Calls       []*WCall
-	Acts        []WAct
-	Beats       []time.Duration // other traffic at these times (heartbeat / location report alternating)
-	Burst       int             // answer the held commands in ONE socket write once this many command frames arrived
-	BurstDup    int             // ... each response this many times
-	CloseFrames int             // close after this many command frames were received and handled (0 = no)
-	CloseTime   time.Duration   // close at this time (0 = no)
-	RST         bool
-	Slack       time.Duration
+	Kind         string
+	Seed         int64
+	Phone        string
+	PreJoin      bool // join (one heartbeat) before the recording starts
+	RecordJoin   bool // the first heartbeat is part of the recorded history
+	PreAdvance   int  // heartbeats sent and answered before the recording (advances the platform serial)
+	Calls        []*WCall
+	Acts         []WAct
+	Beats        []time.Duration // other traffic at these times (heartbeat / location report alternating)
+	Burst        int             // answer the held commands in ONE socket write once this many command frames arrived
+	BurstDup     int             // ... each response this many times
+	Flood        int             // this many heartbeats in ONE socket write at the start of the recording (more than msgChan holds)
+	CloseReplies int             // close after this many 0x8001 replies were received (0 = no)
+	CloseFrames  int             // close after this many command frames were received and handled (0 = no)
+	CloseTime    time.Duration   // close at this time (0 = no)
+	RST          bool
+	Slack        time.Duration
 }
 
 type WViol struct {
@@ -73,6 +75,9 @@ type WHist struct {
 }
 
 // Request is the `wexp` line for the oracle.
+// Searchable: histories beyond this size are checked by the direct oracle only.
+func (h *WHist) Searchable() bool { return len(h.Items) > 0 && len(h.Items) <= 260 }
+
 func (h *WHist) Request() string {
 	pre := "0"
 	if h.Pre {
@@ -110,6 +115,7 @@ type wrun struct {
 	beatTags []uint16
 	replied  []uint16 // tags of the 0x8001 replies received, in order
 	heldCmd  []PFrame
+	nreplies int
 	todo     int // scripted terminal actions not yet performed (first heartbeat, beats, delayed responses)
 	syncTag  int
 	syncCh   chan struct{}
@@ -209,6 +215,10 @@ func (r *wrun) handle(f PFrame) {
 		tag := int(f.Body[0])<<8 | int(f.Body[1])
 		r.F = append(r.F, fmt.Sprintf("F/R%d.%d/0/%d", f.Serial, tag, t))
 		r.replied = append(r.replied, uint16(tag))
+		r.nreplies++
+		if r.sc.CloseReplies > 0 && r.nreplies == r.sc.CloseReplies {
+			r.doClose()
+		}
 		return
 	}
 	r.F = append(r.F, fmt.Sprintf("F/W%d.%d/0/%d", f.Serial, f.ID, t))
@@ -322,6 +332,9 @@ func RunW(s *Srv, sc *WScn) *WHist {
 	if sc.RecordJoin {
 		r.todo++
 	}
+	if sc.Flood > 0 {
+		r.todo++
+	}
 	r.t0 = time.Now()
 	stop := make(chan struct{})
 	termDone := make(chan struct{})
@@ -348,6 +361,27 @@ func RunW(s *Srv, sc *WScn) *WHist {
 		if sc.RecordJoin {
 			r.mu.Lock()
 			r.sendBeat(false)
+			r.todo--
+			r.mu.Unlock()
+		}
+		if sc.Flood > 0 { // one segment with far more reply-bearing frames than msgChan holds
+			r.mu.Lock()
+			var buf []byte
+			var tags []uint16
+			for i := 0; i < sc.Flood; i++ {
+				ser := t.NextSerial()
+				tags = append(tags, ser)
+				buf = append(buf, TFrame(0x0002, t.Phone, ser, nil)...)
+			}
+			lo := r.us()
+			_, err := t.Conn.Write(buf)
+			hi := r.us()
+			if err == nil {
+				for _, tg := range tags {
+					r.T = append(r.T, fmt.Sprintf("T/s:o.%d.1/%d/%d", tg, lo, hi))
+				}
+				r.beatTags = append(r.beatTags, tags...)
+			}
 			r.todo--
 			r.mu.Unlock()
 		}
@@ -410,7 +444,8 @@ func RunW(s *Srv, sc *WScn) *WHist {
 	// let the scripted terminal actions that are still due (beats, delayed responses, the close) happen
 	for end := time.Now().Add(6 * time.Second); time.Now().Before(end); time.Sleep(300 * time.Microsecond) {
 		r.mu.Lock()
-		done := r.closed || (r.todo == 0 && !(sc.CloseTime > 0 || sc.CloseFrames > 0 && r.cmdN >= sc.CloseFrames))
+		done := r.closed || (r.todo == 0 && !(sc.CloseTime > 0 || sc.CloseFrames > 0 && r.cmdN >= sc.CloseFrames) &&
+			!(sc.CloseReplies > 0 && time.Since(r.t0) < 3*time.Second))
 		r.mu.Unlock()
 		select {
 		case <-termDone: // the server closed the connection
@@ -599,7 +634,7 @@ func (r *wrun) check(h *WHist) {
 
 // ---------------------------------------------------------------- scenario generators
 
-var WKinds = []string{"burst", "order", "late", "dup", "unknown", "bad", "never", "mixed", "attr", "notmo", "prejoin", "wrap",
+var WKinds = []string{"default0", "flood-close", "burst", "order", "late", "dup", "unknown", "bad", "never", "mixed", "attr", "notmo", "prejoin", "wrap",
 	"close-idle", "close-queued", "close-outstanding", "close-afterresp", "close-timer", "close-early", "rst-outstanding"}
 
 func ms(n int) time.Duration { return time.Duration(n) * time.Millisecond }
@@ -634,6 +669,32 @@ func GenW(kind string, seed int64) *WScn {
 			sc.Acts = append(sc.Acts, WAct{Kind: "delay", Delay: ms(rng.Intn(40))})
 		}
 		beats(rng.Intn(3), 40)
+	case "default0": // OverTimeDuration 0 = "use the 3 s default": a silent terminal, the call must time out after 3 s
+		k = 1 + rng.Intn(2)
+		for i := 0; i < k; i++ {
+			sc.Calls = append(sc.Calls, mk(i, 0))
+			sc.Acts = append(sc.Acts, WAct{Kind: "never"})
+		}
+		if rng.Intn(3) == 0 && k > 1 { // one of them is answered after all
+			sc.Acts[0] = WAct{Kind: "delay", Delay: ms(rng.Intn(200))}
+		}
+		beats(1, 50)
+	case "flood-close": // 30..400 heartbeats in one segment (msgChan holds 10), then close / RST while the reader still pushes
+		sc.Flood = []int{30, 60, 120, 250, 400}[rng.Intn(5)]
+		sc.RST = rng.Intn(3) != 0
+		if rng.Intn(2) == 0 {
+			sc.CloseReplies = 1 + rng.Intn(3)
+		} else {
+			sc.CloseTime = []time.Duration{100 * time.Microsecond, 500 * time.Microsecond, 2 * time.Millisecond, 8 * time.Millisecond}[rng.Intn(4)]
+		}
+		k = rng.Intn(3)
+		sc.Calls = nil
+		for i := 0; i < k; i++ {
+			c := mk(i, to())
+			c.Start = time.Duration(rng.Intn(2000)) * time.Microsecond
+			sc.Calls = append(sc.Calls, c)
+			sc.Acts = append(sc.Acts, WAct{Kind: "never"})
+		}
 	case "burst": // 5..8 commands outstanding, all answered (once or twice) in a single TCP segment
 		k = 5 + rng.Intn(4)
 		for i := 0; i < k; i++ {
@@ -789,6 +850,6 @@ func (sc *WScn) Describe() string {
 	for _, a := range sc.Acts {
 		as = append(as, fmt.Sprintf("%s+%v", a.Kind, a.Delay))
 	}
-	return fmt.Sprintf("kind=%s seed=%d phone=%s prejoin=%v preadvance=%d calls=[%s] acts=[%s] beats=%v closeFrames=%d closeTime=%v rst=%v",
-		sc.Kind, sc.Seed, sc.Phone, sc.PreJoin, sc.PreAdvance, strings.Join(cs, " "), strings.Join(as, " "), sc.Beats, sc.CloseFrames, sc.CloseTime, sc.RST)
+	return fmt.Sprintf("kind=%s seed=%d phone=%s prejoin=%v preadvance=%d calls=[%s] acts=[%s] beats=%v flood=%d closeReplies=%d closeFrames=%d closeTime=%v rst=%v",
+		sc.Kind, sc.Seed, sc.Phone, sc.PreJoin, sc.PreAdvance, strings.Join(cs, " "), strings.Join(as, " "), sc.Beats, sc.Flood, sc.CloseReplies, sc.CloseFrames, sc.CloseTime, sc.RST)
 }
